@@ -1,6 +1,7 @@
 //! TransientSource driven through a real event loop with instrumented children (C18).
 //! Input: one case per line: `from|default op op ...` with ops evC evR evD evM rm rp reg rereg unreg and e<A>m / e<A>p (child's event
 //! answered A in C R D M, then remove() / replace(new) by the parent inside the same process_events, which returns Reregister).
+//!   e<A>d: the child's event answered A and the parent answers PostAction::Disable itself (the loop then unregisters the parent directly).
 //! Output: one line per case with the observations of the children and of the wrapper.
 use calloop::generic::Generic;
 use calloop::transient::TransientSource;
@@ -157,6 +158,9 @@ impl EventSource for Obs {
                     self.inner.replace(c);
                     return Ok(PostAction::Reregister);
                 }
+                // the parent answers Disable itself: the loop unregisters it directly, without the reregistration the child asked for
+                // (outside the Coq model's operations; judged by py/p_c18.py on the calls the child saw)
+                3 => return Ok(PostAction::Disable),
                 _ => {}
             }
         }
@@ -225,7 +229,7 @@ fn run_case(line: &str) -> String {
     let mut token: Option<RegistrationToken> = None;
     for op in &ws[1..] {
         match *op {
-            "evC" | "evR" | "evD" | "evM" | "eCm" | "eRm" | "eDm" | "eMm" | "eCp" | "eRp" | "eDp" | "eMp" => {
+            "evC" | "evR" | "evD" | "evM" | "eCm" | "eRm" | "eDm" | "eMm" | "eCp" | "eRp" | "eDp" | "eMp" | "eCd" | "eRd" | "eDd" | "eMd" => {
                 answer.set(match op.as_bytes()[if op.len() == 3 && !op.starts_with("ev") { 1 } else { 2 }] {
                     b'C' => 0,
                     b'R' => 1,
@@ -236,6 +240,8 @@ fn run_case(line: &str) -> String {
                     0
                 } else if op.ends_with('m') {
                     1
+                } else if op.ends_with('d') {
+                    3
                 } else {
                     2
                 });
